@@ -59,6 +59,10 @@ type Effects struct {
 // external callees that write through an argument: name -> arg indices
 var writingExt = map[string][]int{
 	"crypto/rand.Read":                    {0},
+	"crypto/rsa.EncryptOAEP":              {0}, // the hash state is used (reset and written)
+	"crypto/rsa.DecryptOAEP":              {0},
+	"invoke (hash.Hash).Write":            {0},
+	"invoke (hash.Hash).Reset":            {0},
 	"io.ReadFull":                         {1},
 	"io.ReadAtLeast":                      {1},
 	"sort.Strings":                        {0},
